@@ -17,11 +17,21 @@ from .. import pyfront
 SELECTORS = ('snapshot', 'index', 'hash', 'key', 'blob', 'i')
 
 
+class _Sel:
+    """a selector reached through the argument containers: kw.get('snapshot'), kw['snapshot']"""
+    def __init__(self, id_, lineno):
+        self.id, self.lineno = id_, lineno
+
+
 def _truthiness_operands(test):
-    """bare names whose truth value decides `test`"""
+    """bare names (and kw.get('name') / kw['name'] look-ups) whose truth value decides `test`"""
     out = []
     if isinstance(test, ast.Name):
         out.append(test)
+    elif isinstance(test, ast.Call) and isinstance(test.func, ast.Attribute) and test.func.attr == 'get' and test.args and isinstance(test.args[0], ast.Constant) and isinstance(test.args[0].value, str):
+        out.append(_Sel(test.args[0].value, test.lineno))
+    elif isinstance(test, ast.Subscript) and isinstance(test.slice, ast.Constant) and isinstance(test.slice.value, str):
+        out.append(_Sel(test.slice.value, test.lineno))
     elif isinstance(test, ast.UnaryOp) and isinstance(test.op, ast.Not):
         out += _truthiness_operands(test.operand)
     elif isinstance(test, ast.BoolOp):
@@ -47,6 +57,16 @@ def rule_selector_truthiness(ctx, rule, classes, names=SELECTORS):
                 elif isinstance(node, ast.BoolOp) and not any(isinstance(p_, (ast.If, ast.While, ast.IfExp)) and p_.test is node for p_ in ast.walk(fn)):
                     # `x = snapshot or -1`
                     tests.append(ast.BoolOp(op=node.op, values=node.values[:-1])) if len(node.values) > 1 else None
+                if isinstance(node, ast.If):
+                    # `if len(args)>1 and args[1]: snapshot = args[1]`: the truth value of the positional argument decides
+                    vals = [v for v in (node.test.values if isinstance(node.test, ast.BoolOp) else [node.test]) if isinstance(v, ast.Subscript)]
+                    for v in vals:
+                        for st in node.body:
+                            if isinstance(st, ast.Assign) and len(st.targets) == 1 and isinstance(st.targets[0], ast.Name) and st.targets[0].id in names \
+                                    and ast.unparse(st.value) == ast.unparse(v):
+                                n += 1
+                                ctx.report(rule, '%s.%s:%s' % (cname, mname, st.targets[0].id), '%s:%d %s.%s' % (c.path, v.lineno, cname, mname),
+                                           '%s is taken from %s only if that value is true: the legitimate value 0 is treated as "not given"' % (st.targets[0].id, ast.unparse(v)))
                 for t in tests:
                     for nm in _truthiness_operands(t):
                         if nm.id in names:
@@ -192,3 +212,119 @@ def rule_internal_flags(ctx, rule):
                 reads += 1
     anchor(reads >= 3, 'reads of is_synchronized / recalculate_* in the Python layer (positive control, found %d)' % reads)
     ctx.covered(rule, 'the Python layer reads the integrators\' bookkeeping flags (%d reads) and never writes them' % reads, reads + writes, floor=3)
+
+
+def rule_none_helpers(ctx, rule):
+    """A helper whose name says it tests for None (notNone, isNone ...) decides by identity with None. any()/all()/bool() on
+    the values are truthiness tests: an element given as 0 (e = 0, h = k = 0, x = 0) then counts as not given, and the
+    argument groups of the particle constructor are classified differently from the C parser."""
+    import re
+    db = pyfront.pydb()
+    n = 0
+    for rel, tree in sorted(db.files.items()):
+        for fn in [x for x in ast.walk(tree) if isinstance(x, ast.FunctionDef)]:
+            if not re.search(r'none', fn.name, re.I):
+                continue
+            n += 1
+            mentions = any(isinstance(x, ast.Constant) and x.value is None for x in ast.walk(fn) if not (isinstance(x, ast.Constant) and isinstance(x.value, str)))
+            truthy = [x for x in ast.walk(fn) if isinstance(x, ast.Call) and isinstance(x.func, ast.Name) and x.func.id in ('any', 'all', 'bool')]
+            if truthy or not mentions:
+                ctx.report(rule, '%s:%s' % (rel, fn.name), '%s:%d %s' % (rel, fn.lineno, fn.name),
+                           '%s() promises a test for None but %s: arguments that are given as 0 are treated as not given' % (fn.name, 'decides with %s()' % truthy[0].func.id if truthy else 'never mentions None'))
+    ctx.covered(rule, 'helpers named after a None test compare with None', n, floor=1)
+
+
+def rule_c_result_only(ctx, rule, cls='Rotation', prefix='reb_rotation_init_'):
+    """Constructors of `cls` that build the object with a C function return nothing but that function's result: a Python-side
+    shortcut for a "trivial" input (return cls() for the identity) takes over a decision the C code makes with more care
+    (the degenerate directions of a rotation)."""
+    db = pyfront.pydb()
+    c = db.classes.get(cls)
+    anchor(c is not None, 'class %s' % cls)
+    n = 0
+    for fn in [x for x in c.node.body if isinstance(x, ast.FunctionDef)]:
+        calls = [x for x in ast.walk(fn) if isinstance(x, ast.Call) and isinstance(x.func, ast.Attribute) and x.func.attr.startswith(prefix) and pyfront._name(x.func.value) == 'clibrebound']
+        if not calls or not any(pyfront._name(d) == 'classmethod' for d in fn.decorator_list):
+            continue            # __init__ fills the fields of self and returns nothing
+        n += 1
+        results = set()
+        for st in ast.walk(fn):
+            if isinstance(st, ast.Assign) and len(st.targets) == 1 and isinstance(st.targets[0], ast.Name) and st.value in calls:
+                results.add(st.targets[0].id)
+        for r in [x for x in ast.walk(fn) if isinstance(x, ast.Return)]:
+            v = r.value
+            ok = (v in calls) or (isinstance(v, ast.Name) and v.id in results)
+            if not ok:
+                ctx.report(rule, '%s.%s:return' % (cls, fn.name), '%s:%d %s.%s' % (c.path, r.lineno, cls, fn.name),
+                           '%s.%s builds its result with %s but this return hands back %s instead: for the inputs that take this way out the C construction (and its handling of degenerate directions) is bypassed' % (cls, fn.name, calls[0].func.attr, ast.unparse(v)[:50] if v is not None else 'None'))
+    ctx.covered(rule, 'constructors of %s that call clibrebound.%s* return only the C result' % (cls, prefix), n, floor=3)
+
+
+def rule_undefined_names(ctx, rule, skip_files=('rebound/horizons.py', 'rebound/plotting.py', 'rebound/widget.py')):
+    """Names a function loads are bound somewhere: its parameters, its own assignments (incl. for/with/except/import
+    targets, comprehensions), an enclosing function, the module, or the builtins. A name that is bound nowhere is a
+    NameError on the path that reaches it (Simulation.from_simulationarchive passed `filename`, which it does not have)."""
+    import builtins
+    import symtable
+    db = pyfront.pydb()
+    n = 0
+    b = set(dir(builtins)) | {'__file__', '__name__', '__doc__', 'unicode', 'basestring', 'long', 'xrange', 'raw_input', 'reload', 'file', 'WindowsError',
+                           'display', 'get_ipython'}       # IPython puts these into the builtins of a notebook session
+    from ..core import REPO
+    import os
+    for rel in sorted(db.files):
+        if rel in skip_files:
+            continue
+        src = open(os.path.join(REPO, rel), encoding='utf-8').read()
+        try:
+            top = symtable.symtable(src, rel, 'exec')
+        except SyntaxError as e:
+            raise AnalysisError('%s: cannot build the symbol table of %s: %s' % (rule, rel, e))
+        module_names = {s.get_name() for s in top.get_symbols() if s.is_assigned() or s.is_imported() or s.is_namespace()}
+        star = any(isinstance(x, ast.ImportFrom) and any(a.name == '*' for a in x.names) for x in ast.walk(db.files[rel]))
+
+        def visit(tab, outer):
+            nonlocal n
+            for ch in tab.get_children():
+                if ch.get_type() == 'function':
+                    n += 1
+                    for s in ch.get_symbols():
+                        if s.is_global() and s.is_referenced() and not s.is_assigned():
+                            nm = s.get_name()
+                            if nm in module_names or nm in b or nm in outer or star:
+                                continue
+                            ctx.report(rule, '%s:%s:%s' % (rel, ch.get_name(), nm), '%s:%d %s' % (rel, ch.get_lineno(), ch.get_name()),
+                                       'the function uses the name %s, which is bound neither in the function, nor in an enclosing scope, nor at module level, nor a builtin: the path that reaches it raises NameError' % nm)
+                    visit(ch, outer | {s.get_name() for s in ch.get_symbols() if s.is_local() or s.is_parameter()})
+                else:
+                    visit(ch, outer)
+        visit(top, set())
+    ctx.covered(rule, 'functions of the Python layer: every global name they load is bound at module level or is a builtin', n, floor=300)
+
+
+def rule_keyword_constructor(ctx, rule, cls='Simulation', keywords=('filename',)):
+    """`cls.__init__` declares keyword parameters (filename, snapshot) and `__new__` does the work from *args / **kw. The
+    early "no arguments: new empty object" exit of __new__ must not be taken when the keyword is given - otherwise
+    Simulation(filename=f) and the classmethods built on it return an empty simulation instead of the file's content."""
+    db = pyfront.pydb()
+    c = db.classes.get(cls)
+    anchor(c is not None and isinstance(c.defs.get('__new__'), ast.FunctionDef) and isinstance(c.defs.get('__init__'), ast.FunctionDef), '%s.__new__ and __init__' % cls)
+    new, init = c.defs['__new__'], c.defs['__init__']
+    declared = [a.arg for a in init.args.args[1:]]
+    n = 0
+    for kwd in keywords:
+        if kwd not in declared:
+            continue
+        n += 1
+        moved_before = None
+        for st in new.body:
+            src = ast.unparse(st)
+            if isinstance(st, ast.If) and ast.unparse(st.test).replace(' ', '') in ('len(args)==0', 'notargs', 'len(args)<1') and any(isinstance(x, ast.Return) for x in ast.walk(st)):
+                if kwd in src or 'kw' in ast.unparse(st.test) or moved_before:
+                    break
+                ctx.report(rule, '%s.__new__:%s' % (cls, kwd), '%s:%d %s.__new__' % (c.path, st.lineno, cls),
+                           '__init__ declares the keyword %s, but __new__ returns a new empty %s as soon as no positional argument is given, before it looks at kw[%r]: %s(%s=...) silently ignores the argument' % (kwd, cls, kwd, cls, kwd))
+                break
+            if ('kw' in src and kwd in src and 'args' in src) and isinstance(st, (ast.If, ast.Assign)):
+                moved_before = st
+    ctx.covered(rule, 'keywords declared by %s.__init__ are honoured by __new__ before its "no arguments" exit' % cls, n, floor=1)
